@@ -195,3 +195,30 @@ func (s *Solver) race(file string) Answer {
 	}
 	return best
 }
+
+// Probe runs only the newest z3 for at most sec seconds (used for vacuity covers,
+// where anything but `unsat` is acceptable).
+func (s *Solver) Probe(query string, sec int) Answer {
+	h := sha256.Sum256([]byte(query))
+	key := "p" + hex.EncodeToString(h[:12])
+	file := filepath.Join(s.OutDir, "q", key+".smt2")
+	if s.CacheOn {
+		s.mu.Lock()
+		a, ok := s.cache[key]
+		s.mu.Unlock()
+		if ok {
+			a.Cached = true
+			return a
+		}
+	}
+	os.WriteFile(file, []byte(query), 0o644)
+	ctx, cancel := context.WithTimeout(context.Background(), time.Duration(sec+1)*time.Second)
+	defer cancel()
+	r, _ := runOne(ctx, solverCmds[0].bin, solverCmds[0].args(sec), file)
+	a := Answer{Result: r, Solver: solverCmds[0].name, File: file}
+	s.mu.Lock()
+	s.cache[key] = a
+	s.dirty = true
+	s.mu.Unlock()
+	return a
+}
